@@ -68,12 +68,22 @@ def check_run(ctx, prog, y, tr, seed, case=None):
         if norm(mo) != norm(real):
             ctx.disagree('flow', dict(case, task=t['name'],
                                       parents=[[p['name'], p['published']] for p in ps]), mo, real)
-    # ---- monitor: causally latest publisher wins (flat, shape-preserving histories only: the
-    # shape-changing ones are known finding G and are classified by ctx_stream)
+    # ---- monitors on the real rows.  LEAF-granular (every history, also those that republish a variable
+    # without a leaf or with another shape): the visible value of a leaf path is that of a maximal
+    # publisher of that leaf, never a stale copy (ctx_stream.check_leaves); whole-variable (shape-
+    # preserving histories only): the value of the causally latest publisher, else the workflow input
     h2 = [{'name': h['name'], 'parents': ['%s#%d' % (p['name'], p['ord']) for p in h['parents']],
            'published': h['row']['published'] or {}} for h in hist]
     names = {h['name'] for h in h2}
     h2 = [dict(h, parents=[p for p in h['parents'] if p in names]) for h in h2]
+    h2 = topo(h2)
+    causal = ctx_stream.Causal(h2)
+    ctx.count('flow', 'history:' + ctx_stream.hist_class(h2, causal))
+    for h in h2:
+        row = [x for x in hist if x['name'] == h['name']][0]['row']
+        ctx_stream.check_leaves(ctx, 'flow', causal, h['name'],
+                                {k: v for k, v in (row['in_context'] or {}).items() if k not in INTERNAL},
+                                dict(case, task=row['name']))
     if ctx_stream.shape_change(h2):
         ctx.count('flow', 'shape-changing-history')
         return
@@ -116,6 +126,33 @@ def check_run(ctx, prog, y, tr, seed, case=None):
         prev = cur_all
 
 
+def topo(h2):
+    """the rows in a causal order (parents first), as ctx_stream.Causal expects"""
+    done, out, left = set(), [], list(h2)
+    while left:
+        nxt = [h for h in left if all(p in done for p in h['parents'])]
+        if not nxt:
+            nxt = left[:1]      # cannot happen for single-activation runs; keep the monitor total
+        for h in nxt:
+            out.append(h)
+            done.add(h['name'])
+        left = [h for h in left if h['name'] not in done]
+    return out
+
+
+def hist_to_program(hist):
+    """a publish history of ctx_stream (fork/join DAG of literal publishes) as a direct workflow: one noop
+    task per history task, on-success routes to its children, `join: all` where it has >= 2 parents"""
+    tasks = []
+    for t in hist:
+        tasks.append({'name': t['name'], 'action': ['noop'], 'join': 'all' if len(t['parents']) >= 2 else None,
+                      'publish': {v: ['lit', val] for v, val in t['published'].items()},
+                      'on_success': [{'to': c['name'], 'guard': None} for c in hist if t['name'] in c['parents']],
+                      'on_error': [], 'on_complete': []})
+    return {'name': 'wf', 'type': 'direct', 'tasks': tasks, 'syntax': 'yaql', 'input': [],
+            'output': {'o0': ['var', ctx_stream.VARS[0]]}}
+
+
 def _plain_keys(hashed=True):
     # the model keeps version keys as plain leaf paths; real md5 keys are mapped back (ctx_stream.UNHASH)
     from harness import boot
@@ -131,12 +168,25 @@ def run_chunk(ctx, n_programs):
     tries = 0
     while done < n_programs and tries < n_programs * 6:
         tries += 1
-        prog = wfgen.gen_program(rng, p_bad=0.0, p_cmd=0.0, p_fail=0.08)
-        wfgen.make_single_activation(prog)
-        if not es.deterministic_class(prog):
-            continue
+        if rng.random() < 0.45:
+            # the fork/join publish histories of the ctx stream (nested dict before a fork, a leaf
+            # republished in one branch, wholesale republication without it in a sibling, chained joins,
+            # branches from independent roots) as real workflows: concurrent publishers of one VARIABLE
+            # are allowed here, the leaf-granular monitor knows what the statement says about them
+            hist = (ctx_stream.gen_fork_nested if rng.random() < 0.6 else ctx_stream.gen_multi_root)(rng)
+            if len(hist) > 12:
+                continue
+            prog = hist_to_program(hist)
+            ctx.count('flow', 'program:publish-history-motif')
+            table = {}
+        else:
+            prog = wfgen.gen_program(rng, p_bad=0.0, p_cmd=0.0, p_fail=0.08)
+            wfgen.make_single_activation(prog)
+            if not es.deterministic_class(prog):
+                continue
+            ctx.count('flow', 'program:generated')
+            table = wfgen.gen_oracle_table(rng, prog, p_err=0.08)
         y = wfgen.render_yaml(prog)
-        table = wfgen.gen_oracle_table(rng, prog, p_err=0.08)
         policy = rng.choice(['random', 'fifo', 'lifo'])
         seed = rng.getrandbits(32)
         hashed = rng.random() < 0.7
